@@ -77,6 +77,8 @@ type Contract struct {
 	Trusted    bool
 	TrustedWhy string
 	Pure       bool
+	NoInv      bool
+	Inline     bool
 	HasMod     bool
 	Modifies   []string
 	Lets       []LetDef
@@ -123,6 +125,7 @@ type SpecLemma struct {
 }
 
 type GInv struct {
+	IsPkgInv bool
 	Name    string
 	Expr    CExpr
 	Src     string
@@ -148,6 +151,7 @@ type Specs struct {
 	Lemmas    []*SpecLemma
 	Contracts []*Contract
 	GInvs     []*GInv
+	PkgInvs   []*GInv
 	Ghosts    map[string]string
 	ErrAttrs  []string
 	IfacePure map[string]bool
@@ -157,7 +161,7 @@ func NewSpecs() *Specs {
 	return &Specs{Fns: map[string]*SpecFn{}, Consts: map[string]*SpecConst{}, Defines: map[string]*SpecDefine{}, Ghosts: map[string]string{}, IfacePure: map[string]bool{}}
 }
 
-var directiveRe = regexp.MustCompile(`^(sort|fn|const|define|axiom|lemma|ginv|ghost|errattr|ifacepure|package|func|trusted|pure|modifies|let|requires|ensures|loop|invariant|decreases|bind)\b`)
+var directiveRe = regexp.MustCompile(`^(sort|fn|const|define|axiom|lemma|ginv|pkginv|noinv|inline|ghost|errattr|ifacepure|package|func|trusted|pure|modifies|let|requires|ensures|loop|invariant|decreases|bind)\b`)
 
 type logicalLine struct {
 	text string
@@ -201,7 +205,7 @@ func readLogicalLines(path string, repoStyle bool) ([]logicalLine, error) {
 	return out, sc.Err()
 }
 
-var clauseHead = regexp.MustCompile(`^(requires|ensures|invariant|axiom|lemma|ginv)(\[[^\]]*\])?\s+([A-Za-z0-9_.\-]+)\s*:\s*(.*)$`)
+var clauseHead = regexp.MustCompile(`^(requires|ensures|invariant|axiom|lemma|ginv|pkginv)(\[[^\]]*\])?\s+([A-Za-z0-9_.\-]+)\s*:\s*(.*)$`)
 
 func (s *Specs) LoadFile(path string, repoStyle bool, defaultPkg string) error {
 	lines, err := readLogicalLines(path, repoStyle)
@@ -320,7 +324,7 @@ func (s *Specs) LoadFile(path string, repoStyle bool, defaultPkg string) error {
 			}
 			s.Defines[d.Name] = d
 			cur = nil
-		case "ginv":
+		case "ginv", "pkginv":
 			m := clauseHead.FindStringSubmatch(t)
 			if m == nil {
 				return errf("bad ginv")
@@ -329,8 +333,23 @@ func (s *Specs) LoadFile(path string, repoStyle bool, defaultPkg string) error {
 			if err != nil {
 				return errf("%v", err)
 			}
-			s.GInvs = append(s.GInvs, &GInv{Name: m[3], Expr: e, Src: m[4], File: path, Line: ll.line, PkgPath: curPkg})
+			gi := &GInv{Name: m[3], Expr: e, Src: m[4], File: path, Line: ll.line, PkgPath: curPkg, IsPkgInv: word == "pkginv"}
+			if gi.IsPkgInv {
+				s.PkgInvs = append(s.PkgInvs, gi)
+			} else {
+				s.GInvs = append(s.GInvs, gi)
+			}
 			cur = nil
+		case "noinv":
+			if cur == nil {
+				return errf("noinv outside func block")
+			}
+			cur.NoInv = true
+		case "inline":
+			if cur == nil {
+				return errf("inline outside func block")
+			}
+			cur.Inline = true
 		case "axiom", "lemma":
 			m := clauseHead.FindStringSubmatch(t)
 			if m == nil {
